@@ -397,3 +397,86 @@ share_moltype_with = FunctionContract(
             ("self.same_edges(other) and", "")],
 )
 CONTRACTS.append(share_moltype_with)
+
+
+# ------------------------------------------------------------------ Molecule.same_interactions
+IType3, Inter3 = TKey('IType3'), TKey('Inter3')
+ITable3 = TMap(IType3, TSeq(Inter3))
+
+
+def setup_same_inter(cx):
+    a, b = cx.val('INTER_A', ITable3), cx.val('INTER_B', ITable3)
+    cx.spec_env.update(INTER_A=a, INTER_B=b)
+    return dict(self=Obj('Molecule', interactions=a), other=Obj('Molecule', interactions=b))
+
+
+SPEC_SI3 = {
+    'live': "lambda T, t: t in T and len(T[t]) > 0",
+    'same_list': "lambda x, y: len(x) == len(y) and forall(lambda i: implies(0 <= i and i < len(x), x[i] == y[i]))",
+}
+same_interactions = FunctionContract(
+    FM3, 'Molecule.same_interactions', 'C03', setup=setup_same_inter, spec_defs=SPEC_SI3, spec_env=dict(IType3=IType3),
+    ensures=[
+        # the same interactions: the same types have interactions at all (empty lists do not count), and for each of them the
+        # two lists are equal, element by element and in order
+        "result == (forall(lambda t: live(INTER_A, t) == live(INTER_B, t), IType3) and "
+        "   forall(lambda t: implies(live(INTER_A, t), same_list(INTER_A[t], INTER_B[t])), IType3))",
+    ],
+    canary=[("if keys_self != keys_other:", "if not keys_self <= keys_other:"),
+            ("return all(", "return any(")],
+)
+CONTRACTS.append(same_interactions)
+
+
+# ------------------------------------------------------------------ Molecule.same_edges
+PairK3, EAttr3 = TKey('PairK3'), TKey('EAttr3')
+Edge3 = TTuple(NKey3, NKey3, EAttr3, names=['a', 'b', 'attrs'])
+
+
+def setup_same_edges(cx):
+    from pyvc.values import IterV
+    from pyvc.builtins import _int
+    ea, eb = cx.val('EDGES_A', TSeq(Edge3)), cx.val('EDGES_B', TSeq(Edge3))
+    cx.spec_env.update(EDGES_A=ea, EDGES_B=eb)
+    pk = cx.uf('pk', [NKey3, NKey3], PairK3)                # frozenset((a, b)): the unordered pair
+    x, y = z3.Const('px', NKey3.sort()), z3.Const('py', NKey3.sort())
+    cx.assume(z3.ForAll([x, y], pk(x, y) == pk(y, x)))
+    diff = cx.uf('differ_e', [EAttr3, EAttr3], TBool)
+    cx.spec_env['utils'] = Obj('utils', are_different=Builtin(lambda e, a, b: wrap(TBool, diff(to_z3(a, EAttr3), to_z3(b, EAttr3))), 'utils.are_different'))
+
+    def frozenset_(e, t):
+        if not isinstance(t, tuple) or len(t) != 2:
+            raise EngineError('frozenset(%r)' % (t,))
+        return SV(PairK3, pk(to_z3(t[0], NKey3), to_z3(t[1], NKey3)))
+    cx.spec_env['frozenset'] = Builtin(frozenset_, 'frozenset')
+
+    def mol(edges):
+        st = TSeq(Edge3)
+
+        def edges_(e, data=False):
+            if data is not True:
+                raise EngineError('edges(data=%r)' % (data,))
+            return IterV(st.len(edges.e), lambda i: tuple(SV(t, Edge3.get(st.at(edges.e, _int(i)), k)) for k, t in enumerate(Edge3.ts)))
+        return Obj('Molecule', edges=Builtin(edges_, 'edges'))
+    return dict(self=mol(ea), other=mol(eb))
+
+
+SPEC_SE3 = {
+    'key': "lambda E, q: pk(E[q].a, E[q].b)",
+    'has': "lambda E, p: exists(lambda q: 0 <= q and q < len(E) and key(E, q) == p)",
+    # a graph holds every bond once
+    'simple': "lambda E: forall(lambda q, r: implies(0 <= q and q < r and r < len(E), key(E, q) != key(E, r)))",
+}
+same_edges = FunctionContract(
+    FM3, 'Molecule.same_edges', 'C03', setup=setup_same_edges, spec_defs=SPEC_SE3, spec_env=dict(PairK3=PairK3),
+    requires=["simple(EDGES_A) and simple(EDGES_B)"],
+    ensures=[
+        # the same bonds: the same unordered pairs of atoms are bonded, and the attributes of corresponding bonds are not different
+        "result == (forall(lambda p: has(EDGES_A, p) == has(EDGES_B, p), PairK3) and "
+        "   forall(lambda q, r: implies(0 <= q and q < len(EDGES_A) and 0 <= r and r < len(EDGES_B) and key(EDGES_A, q) == key(EDGES_B, r), "
+        "      not differ_e(EDGES_A[q].attrs, EDGES_B[r].attrs))))",
+    ],
+    canary=[("if set(edges_self.keys()) != set(edges_other.keys()):", "if not set(edges_self.keys()) <= set(edges_other.keys()):"),
+            ("not utils.are_different(edges_self[edge], edges_other[edge])", "utils.are_different(edges_self[edge], edges_other[edge])")],
+)
+CONTRACTS.append(same_edges)
